@@ -488,3 +488,28 @@ Definition timing_panics (st : tstate) (a : acc) : bool :=
   | AWriteU _ => (8 <? num_bytes r cnt) || timing_write_panics st w r cnt lane (num_bytes r cnt)
   | AReset => timing_reset_panics st w
   end.
+
+(** ** wavefront lifetimes: what a newly dispatched wavefront starts from *)
+
+(** emulation — ComputeUnit.initWfs: a new Wavefront object (NewWavefront:
+    zeroed register files and special registers) on which initWfRegs sets EXEC
+    to the initial mask and v0 of every lane to the work-item id (code object
+    without enabled SGPRs).  Nothing of an earlier wavefront enters. *)
+Definition emu_zero : emu_wf := mkEmu (fun _ => 0) (fun _ => 0) 0 0 0 0.
+
+Definition emu_dispatch (exec0 : N) (ids : N -> N) : emu_wf :=
+  fold_left (fun s l => fst (emu_write_reg s (RV 0) 1 l (le_bytes 4 (ids l)))) (nseq 64) (set_exec emu_zero exec0).
+
+Definition emu_newgen (ws : emu_world) (w exec0 : N) (ids : N -> N) : emu_world := wupd ws w (emu_dispatch exec0 ids).
+
+(** timing — a new wavefront.Wavefront object (special registers zero) at the
+    offsets of the released one, WfDispatcherImpl.DispatchWf: EXEC := initial
+    mask, v0 of every lane := work-item id, written straight into the SIMD's
+    register file *)
+Definition timing_dispatch (st : tstate) (w exec0 : N) (ids : N -> N) : tstate :=
+  fold_left (fun s l => fst (timing_write_reg s w (RV 0) 1 l (le_bytes 4 (ids l)))) (nseq 64)
+            (set_tsp st w (mkSp 0 exec0 0 0)).
+
+(** release of the previous occupant, then dispatch *)
+Definition timing_redispatch (st : tstate) (w exec0 : N) (ids : N -> N) : tstate :=
+  timing_dispatch (fst (timing_reset st w)) w exec0 ids.
